@@ -3,15 +3,37 @@ import itertools, math
 import numpy as np
 from vf import core
 from vf.ref import defs, dims, names, uexpr
+from vf.monitors import c02_handles
 from .common import all_names, chunks, udim, TAINTED
 
 RULE = ("names: every exposed unit name (exhaustive); a case is distinct per name. pairs: ordered pairs of names sharing a "
         "dimension, x.to(u2) vs x*scale(u1)/scale(u2) from the independent table; compounds: random expressions of 1-5 "
         "factors (rational exponents, coefficients, sqrt, parentheses) in the default registry and in a registry with added "
         "symbols, evaluated by an independent recursive-descent evaluator. distinct = distinct name / ordered symbol pair / "
-        "expression string whose reference scale differs from 1 or whose dimension is not trivial")
+        "expression string whose reference scale differs from 1 or whose dimension is not trivial. handles: histories on a "
+        "user registry (added symbols + one built-in) reached through several registry objects - the registry, the registry of "
+        "Unit.copy()/copy.copy/q.in_mks()/in_cgs()/in_base() of base-unit data (share its table), conversion results (same object), "
+        "deep copies, pickles and JSON round trips of unit/registry/array (independent tables): strings (atomic, prefixed, compound) "
+        "are resolved through one handle, a symbol is edited (modify by float/quantity, remove, re-add, add) through the same or "
+        "another handle, then one evaluation = Unit(s, registry=h) [scale, dimension, or refusal] or x.to(s2)/x.in_mks() through one "
+        "handle h against the sequential model of the table h holds NOW (one model per lut dict, identified by object identity); "
+        "distinct = (handle provenance, relation of h to the handle that made the last edit touching the string's symbols "
+        "[editor / shares its table, older or newer / snapshot taken after it / independent of it], edit kind, string class, "
+        "resolved-before-the-edit or not, defined/undefined). Enumerated: every provenance x edit kind x edit direction x spawn "
+        "time x warming handle (450 histories, seed-independent); random: longer histories over up to 7 live handles")
 ASSUMPTIONS = ("vf/ref/defs.py (own transcription of SI/NIST/CODATA/IAU definitions with a tolerance class per entry) is the trusted base",
-               "names listed in unyt's default_unit_name_alternatives are the documented spellings")
+               "names listed in unyt's default_unit_name_alternatives are the documented spellings",
+               "handles: 'the definitions' of a user registry are what the history of add/modify/remove calls made them (sequential model "
+               "ref/regmodel.py per table); which handles share a table is OBSERVED (same lut dict object), never demanded: a copy that "
+               "turned out independent is judged against a snapshot of its source at the time it was made",
+               "handles: a table restored from an array pickle or from JSON gets the default symbols that were removed back "
+               "(UnitRegistry.from_json / array __setstate__ semantics; whether that is right is C11's subject)",
+               "handles: a string the current table gives no meaning to (removed symbol, prefix on a non-prefixable symbol) must be refused: "
+               "an accepted string with a scale that no definition implies is counted as a violation of 'scale agrees with the definition'",
+               "handles: compound strings name every editable symbol at most once (a symbol written twice can cancel out of the expression "
+               "before it is looked up, and the string is then accepted although the symbol is undefined)",
+               "handles: whether an edit call or the making of a handle is accepted is not judged here (C12/C11/C13): the history is abandoned "
+               "and noted; x.in_mks() is judged only when the model can evaluate the unit string it returns, with the same dimension")
 TIMEOUT = 900
 MIN_EVALS = 3000
 
@@ -29,6 +51,11 @@ def batches(tier, seed):
         ncomp, nb = 960000, 64
     for i in range(nb):
         b.append(("compound/%d" % i, ("compound", (seed, i, ncomp // nb))))
+    # registry handles (enumerated part ignores the seed)
+    ne = 16 if tier == "quick" else 32
+    b += [("handles-enum/%d" % i, ("handles_enum", (i, ne, tier != "quick"))) for i in range(ne)]
+    nr, nh, ln = (16, 12, 14) if tier == "quick" else (64, 60, 40)
+    b += [("handles-rand/%d" % i, ("handles_rand", (seed, i, nh, ln, tier != "quick"))) for i in range(nr)]
     return b
 
 
@@ -173,6 +200,20 @@ def worker(batch, rec):
         for a, b in todo:
             check_pair(unyt, a, b, rec)
         rec.sample({"pairs_in_batch": len(todo), "first": todo[:2]})
+    elif kind == "handles_enum":
+        i, n, deep = payload
+        combos = c02_handles.enum_combos()
+        for j in range(i, len(combos), n):
+            c02_handles.run_enum(unyt, j, combos[j], rec, deep)
+            if deep:       # thorough: the same history with the rotated string set and the other symbol rotation
+                c02_handles.run_enum(unyt, j + len(combos) + 1, combos[j], rec, deep)
+    elif kind == "handles_rand":
+        seed, i, nh, ln, deep = payload
+        for j in range(nh):
+            r = core.rng(seed, "handles-rand", i, j)
+            h = c02_handles.run_random(unyt, r, ln, rec, ncompound=(10 if deep else 6), max_handles=(9 if deep else 7))
+            if j < 1:
+                rec.sample({"handles-history": "random", "steps": h.log[:8], "handles": [[o["kind"], o["table"]] for o in h.handles]})
     elif kind == "compound":
         seed, i, n = payload
         r = core.rng(seed, "compound", i)
@@ -231,3 +272,19 @@ def _ctol(s):
         if rr:
             tol += defs.T[rr[1]].tol * 3
     return tol
+
+
+def extra(tier, seed, results):
+    c = {}
+    reached = set()
+    for _, r in results:
+        for k, v in r.get("counters", {}).items():
+            c[k] = c.get(k, 0) + v
+        reached.update(x for x in r.get("reached", []) if x.startswith("handles|"))
+    zero = [k for k in c02_handles.DECIDING if not c.get(k)]
+    known = core.load_findings()
+    if zero and not any(k not in known for _, r in results for k in r.get("viol", {})):     # a new violation is reported, never masked
+        raise core.Inconclusive("sub-monitors-saw-nothing:" + ",".join(zero))
+    cat = c02_handles.catalogue()
+    return {"sub_monitor_counters": {k: c[k] for k in sorted(c) if k.startswith("handles_")}, "handles_catalogue_size": len(cat),
+            "unreached": sorted(cat - reached)}
